@@ -217,6 +217,33 @@ J gen_tunnel(uint64_t seed, const J &ov)
 		if (!ov.getb("trunc") && r.chance(0.25)) cfg.set("relay", gen_relay(r));
 		cfg.set("dur_s", (int)(W + 40));
 		cfg.set("tmax_s", 700);
+	} else if (mode == "stale8") {
+		// the known, unrepaired limit of the 3-bit sequence numbers (known_findings.json, C01): a copy of the answer that carried
+		// fragment 0 of the packet EIGHT packets back - same sequence number as the packet now starting - reaches the client first;
+		// the real fragment 0 then counts as a repeat, and fragment 1.. is appended to the old fragment 0.  With a frame pair whose
+		// difference an Adler-32 does not see, the spliced stream inflates: a frame nobody sent.
+		int F = (int)r.range(80, 160);
+		{ J cl2 = cfg["clients"]; cl2.a[0].set("fragsize", F); cl2.a[0].set("raw", false); cl2.a[0].set("lazy", 0); cl2.a[0].set("interval", 1); cl2.a[0].set("lat_up_us", 1000); cl2.a[0].set("lat_dn_us", 1000); if (cl2.a[0].gets("qtype") != "NULL" && cl2.a[0].gets("qtype") != "TXT" && cl2.a[0].gets("qtype") != "PRIVATE") cl2.a[0].set("qtype", "NULL"); cfg.set("clients", cl2); }
+		double t = 1.0;
+		int cycles = (int)r.range(1, 3);
+		for (int c = 0; c < cycles; c++) {
+			int alen = (int)r.range(2 * F + 30, 3 * F - 20);
+			long long pair = (long long)(r.next() % 60000 + 1);
+			for (int i = 0; i < 9; i++) {
+				J op = J::obj(); op.set("t", (long long)(t * 1e6)); op.set("op", "tun"); op.set("at", "srv"); op.set("ser", (long long)++ser); op.set("dst", "c0"); op.set("src", "ext");
+				if (i == 0 || i == 8) { op.set("len", alen); op.set("body", "adler"); op.set("pair", pair); op.set("variant", i == 0 ? "a" : "b"); }
+				else { op.set("len", (int)r.range(40, std::max(41, F - 40))); op.set("body", "rnd"); }
+				ops.push(op);
+				t += 0.0055 + r.uniform() * 0.002;      // back to back: the ping that acks one packet fetches the next, ~1 query per packet
+			}
+			t += 3;
+		}
+		J f = J::obj();
+		f.set("ref", "T0"); f.set("t0_us", (long long)0); f.set("t1_us", (long long)((t + 5) * 1e6));
+		f.set("p_stale8", 1.0);
+		cfg.set("faults", f);
+		cfg.set("dur_s", (int)(t + 20));
+		cfg.set("tmax_s", 600);
 	} else if (mode == "stale") {
 		// C01 under *old* duplicates: a clean path except that an answer carrying data of a packet 4-7 sequence numbers back (which
 		// the 3-bit numbering cannot tell from a new one) is delivered again between two fragments of a multi-fragment packet.
@@ -416,11 +443,11 @@ World *build_tunnel(const J &plan)
 	if (mode == "redeliver") { w->add(mk_c02_delivery(w, true, false, "C16")); w->add(mk_c16_redeliver(w)); }
 	else if (mode == "relayfam") w->add(mk_c02_delivery(w, true, false, "C11"));
 	else if (mode == "inject9") w->add(install_injector(w));
-	else if (mode == "stale") w->add(mk_stale_dup(w));
+	else if (mode == "stale" || mode == "stale8") w->add(mk_stale_dup(w));
 	else if (mode == "clean9") { w->add(mk_c02_delivery(w, true, false, "C09")); w->add(mk_c09_probe_judge(w)); }
 	else if (mode == "names") { w->add(mk_c02_delivery(w, true, false, "C02")); w->add(mk_c08_names(w)); }
 	else w->add(mk_c02_delivery(w, mode == "clean" && !w->cfg.getb("tiny_M"), mode == "recover"));     // with -M too small for the domain no delivery is promised
-	if (mode != "stale") w->add(mk_c15_fragsize(w));     // stale: replays of old cached answers interleave with the current packet on the wire; C15 is judged elsewhere
+	if (mode != "stale" && mode != "stale8") w->add(mk_c15_fragsize(w));     // stale: replays of old cached answers interleave with the current packet on the wire; C15 is judged elsewhere
 	bool dupish = w->cfg["faults"].getd("p_dup") > 0 || w->cfg["faults"].getd("p_redeliv") > 0;
 	w->add(mk_c14_ledger(w, !dupish));
 	w->add(mk_probes(w));
@@ -483,6 +510,7 @@ World *build_tunnel(const J &plan)
 		if (mode == "faulty") nt = nt && fault;
 		if (mode == "clean" || mode == "clean9") nt = nt && ww->probes["c02.acc_c"] >= 5 && ww->probes["c02.acc_s"] >= 5;
 		if (mode == "recover") nt = nt && fault;
+		if (mode == "stale8") nt = ww->all_in_tunnel && ww->S.counters.count("fault.stale_dup8") && ww->S.counters["fault.stale_dup8"] >= 1;
 		if (mode == "stale") nt = ww->all_in_tunnel && ww->S.counters.count("fault.stale_dup") && ww->S.counters["fault.stale_dup"] >= 1;
 		if (mode == "redeliver") nt = nt && ww->probes["c16.redelivered"] >= 1;
 		if (mode == "inject9") nt = ww->all_in_tunnel && ww->probes["c09.inj_packets_acked"] >= 3;
